@@ -1,4 +1,5 @@
 import Proofs.BatchLemmas
+import Proofs.Auth
 /-
   C05 — Spend authorization.
   Signature checking itself (fat103 / ed25519 / secp256k1) is outside the model: an entry arrives
@@ -80,6 +81,65 @@ theorem distinct_hashes_both_execute_witness :
   ⟨{ hash := "aa", ts := 0, parsed := none, validRCD1 := false, validRCDe := true },
    { hash := "ab", ts := 0, parsed := none, validRCD1 := false, validRCDe := true }, by decide, rfl, rfl⟩
 
+/-! ### block and chain level: only the key holder can cause a debit -/
+
+/-- **`debit_needs_signature`, one block.** Whatever a block contains (any entries on the three
+    chains, any grader answers), if applying it lowers some balance of address `a` — whether the
+    block then commits or is rolled back — then `a` is the input address of a batch, written on
+    the transaction chain in this block or waiting in holding, that passes `Validate` at this
+    height (canonical data, ONE input address, signature by that address' key valid under the key
+    types accepted at this height), or `a` is the mint / burn address at the height of its
+    scheduled adjustment (`Debitable`). Nobody else's balance can go down. -/
+theorem debit_needs_signature (P : Params) (c : DB) (b : Block) (avgs : TMap) (s : DB) (a : Addr) (t : Ticker)
+    (hdec : (blockTx P c b avgs s).state.bal a t < s.bal a t) : Debitable P c b a :=
+  blockTx_debits_only_debitable P c b avgs s a t hdec
+
+/-- **…every chain.** If replaying a chain of blocks lowers a balance of `a`, some block of the
+    chain had `a` among its debitable addresses in the state it was applied to. -/
+theorem chain_debit_needs_signature (P : Params) (chain : List Block) (n : Node) (a : Addr) (t : Ticker)
+    (hdec : (runBlocks P n chain).db.bal a t < n.db.bal a t) :
+    ∃ pre b post, chain = pre ++ b :: post ∧
+      Debitable P { (runBlocks P n pre).db with avgTouched := false } b a := by
+  induction chain generalizing n with
+  | nil => exact absurd hdec (Int.lt_irrefl _)
+  | cons b bs ih =>
+    by_cases h1 : (applyBlock P n b).1.db.bal a t < n.db.bal a t
+    · exact ⟨[], b, bs, rfl, applyBlock_debits_only_debitable P n b a t h1⟩
+    · have h2 : (runBlocks P (applyBlock P n b).1 bs).db.bal a t < (applyBlock P n b).1.db.bal a t := by
+        have : (runBlocks P n (b :: bs)) = runBlocks P (applyBlock P n b).1 bs := rfl
+        rw [this] at hdec
+        omega
+      obtain ⟨pre, b', post, hch, hd⟩ := ih (applyBlock P n b).1 h2
+      exact ⟨b :: pre, b', post, by rw [hch]; rfl, hd⟩
+
+/-- a batch in `Debitable` is valid at the block's height, in particular its signature verdict
+    under the key types of that height is positive and all its inputs name one address -/
+theorem debitable_batch_is_signed (P : Params) (e : TxEntry) (h : Nat) (hv : e.validAt P h = true) :
+    e.sigOK P h = true ∧ ∃ v txs, e.parsed = some (v, txs) ∧ validData P v txs = true := by
+  unfold TxEntry.validAt at hv
+  cases hp : e.parsed with
+  | none => rw [hp] at hv; cases hv
+  | some p =>
+    obtain ⟨v, txs⟩ := p
+    rw [hp] at hv
+    simp only [Bool.and_eq_true] at hv
+    exact ⟨hv.1.2, v, txs, rfl, hv.1.1⟩
+
+/-- non-vacuity: a block with one validly signed transfer lowers the sender's balance, and the
+    sender is debitable in it -/
+def xP : Params :=
+  { act := ⟨0,0,0,0,0,0,0,0,0,0,100,100,200,200,300,310,400⟩, tickerMax := 63, tickerNames := ["PEG", "pUSD", "pEUR"], oneWaySet := [],
+    snapshotRate := 144, perBlockHolders := 0, perBlockDevs := 0, bankBase := 0, avgPeriod := 8, avgRequired := 4,
+    syncVersion := 2, devs := [], «mint» := [], burnAddr := "b", oldBurnAddr := "o", mintAddr := "m", coinbaseAddr := "c", zeroAddr := "0" }
+def xEntry : TxEntry :=
+  { hash := "e1", ts := 0, validRCD1 := true, validRCDe := true,
+    parsed := some (1, [{ inAddr := "alice", inType := 2, inAmount := 30, transfers := [{ addr := "bob", amount := 30 }], conversion := 0 }]) }
+def xDB : DB := { addrs := [{ addr := "alice", bals := setB [] 2 100 }] }
+def xBlock : Block := { height := 7, ts := 0, txs := some [xEntry] }
+example : (blockTx xP xDB xBlock [] xDB).state.bal "alice" 2 = 70 ∧ xDB.bal "alice" 2 = 100 := by decide
+example : Debitable xP xDB xBlock "alice" :=
+  Or.inl ⟨[xEntry], rfl, xEntry, List.mem_singleton.2 rfl, by decide, _, List.mem_singleton.2 rfl, rfl⟩
+
 end Pegnet.C05
 
 #print axioms Pegnet.C05.invalid_entry_inert
@@ -89,3 +149,6 @@ end Pegnet.C05
 #print axioms Pegnet.C05.single_input_address
 #print axioms Pegnet.C05.input_bound
 #print axioms Pegnet.C05.distinct_hashes_both_execute_witness
+#print axioms Pegnet.C05.debit_needs_signature
+#print axioms Pegnet.C05.chain_debit_needs_signature
+#print axioms Pegnet.C05.debitable_batch_is_signed
